@@ -122,7 +122,7 @@ def build(prop, tier="quick"):
     # --- targets
     # (1) search on a fresh hint word: bounded stand-in (<= 3 scopes x <= 3 entries), loops unwound
     kb.add('void h_get_object_search(void) { int nm; uint_fast32_t_ *l; const vstack *st; get_object_small(nm, l, st); VERIF_CANARY("search returns normally"); }')
-    t = Target("get_object_small", "h_get_object_search", loops=False, unwind=5, objbits=8, canary=False,
+    t = Target("get_object_small", "h_get_object_search", loops=False, unwind=5, objbits=8, canary=False, timeout=1800,
                bounded_note="frames of at most 3 scopes with at most 3 entries each (the nested iterator loops are unwound, unwinding assertions on)")
     kb.targets.append(t)
     # (2) hinted fast path with a hint this function itself would have stored for this layout: loop-free, full domain
@@ -153,6 +153,10 @@ def build(prop, tier="quick"):
 
     find_kernel(kb, qf, C)
     function_kernel(kb, dk, C)
+    if tier == "thorough":
+        import engine_probe
+        rc, cases, err = engine_probe.run("c04")
+        kb.static_facts.append(("native battery (thorough tier): probe_engine.cpp c04 scenarios on the real engine", rc == 0 and not cases, (err.strip() + " " + str(cases[:3]))[:400]))
     kb.assumptions += [
         "A6: names are interned ids; the name in slot s of scope i is an uninterpreted function of (i, s); scope contents do not change during one lookup",
         "uint_fast32_t is a 64-bit unsigned long (glibc x86-64); frames of at most 4096 scopes with at most 65536 entries each - the widths of the hint word's "
